@@ -123,6 +123,18 @@ CLAIMED['C03'] = dict(
          'CPython and is outside static reach (DESIGN.md section 5).',
     ref='DESIGN.md section 3, C03')
 
+CLAIMED['C05'] = dict(
+    technique='who-uses census against consumer tables + handler-shape and call-site rules',
+    text='Static: every function that attributes members along the hierarchy iterates Class.mro(); allbases() is only called from the two '
+         'documented fallbacks and baseobjects is iterated only for direct-base purposes (R05.1); the linearisation code raises only '
+         'ValueError, Class._init_mro handles it, reports it against the class (section mro) and still stores a linearisation; '
+         'linearisations are computed only from defaultPostProcess, which is registered and runs after the drain loop (R05.2); mro() '
+         'returns the stored list, starting with the class, and the merge receives the local precedence list (R05.3); bases are resolved '
+         'in the scope enclosing the class in both passes and generic subscripts are stripped from every base (R05.4). Does not decide '
+         'that mro._merge is C3.',
+    note='Trusts the consumer tables (confirmed by reading) and that mro._merge implements C3; equality with type.__mro__ needs execution.',
+    ref='DESIGN.md section 3, C05')
+
 NOT_APPLICABLE = {
     'C04': 'relation between expandName results and the interpreter import system over all projects: value computations, no clause visible in the shape of the code (DESIGN.md section 5)',
     'C06': 'quantifies over processing schedules; name resolution during the AST walk is order sensitive by design, no structural bound (DESIGN.md section 5); the one structural fact (post-processing after the drain loop) is checked under C05',
